@@ -59,6 +59,20 @@ def _small_helpers(mod, fn, known: Dict[str, str]) -> Dict[str, Any]:
     return out
 
 
+def fname_aliases() -> Dict[Sym, Sym]:
+    """the field a key belongs to: safe_snake_case(key), or that behind a lookup of the key in the per-class key table
+    (the shape of this expression is decided by I3; here it is only given the name $fname)"""
+    ssc = CALL(N("safe_snake_case"), N("$key"))
+    out: Dict[Sym, Sym] = {ssc: N("$fname")}
+    for owner in ("cls", "self"):
+        get = ("call", A(A(A(N(owner), "_betterproto"), "field_name_by_key"), "get"), (N("$key"),), ())
+        out[("op", "or", get, N("$fname"))] = N("$fname")
+        out[("op", "or", get, ssc)] = N("$fname")
+        out[get] = N("$fname")     # if-form: a hit in the table is the field name as well
+    out[("op", "or", N("$fname"), N("$fname"))] = N("$fname")
+    return out
+
+
 def _decides_wellknown(val: Dict[Sym, bool]) -> bool:
     """the path took a branch reserved for Timestamp / Duration values: isinstance(x, datetime|timedelta) or cls == datetime|timedelta"""
     for k, v in val.items():
@@ -182,7 +196,7 @@ def _from_dict_classes(ctx, mod, t: str, shape: str) -> Set[str]:
             return [N("$key"), value]
         return None
 
-    al[CALL(N("safe_snake_case"), N("$key"))] = N("$fname")
+    al.update(fname_aliases())
     i = Interp(mod, bindings=b, aliases=al, loop_roles=roles, assume=assume, fork_ifexp=True, inline=_small_helpers(mod, fn, DEC_CLASSES))
     paths = i.run(fn)
     ctx.count(len(paths))
@@ -482,7 +496,7 @@ def rule_K3(ctx, rule: str = "K3") -> None:
 
 def _fdi_interp(mod, **kw):
     al = {("sub", A(A(N("cls"), "_betterproto"), "meta_by_field_name"), N("$fname")): META,
-          CALL(N("safe_snake_case"), N("$key")): N("$fname")}
+          **fname_aliases()}
     value = N("$jvalue")
 
     def roles(it: Sym, depth: int):
